@@ -1,5 +1,10 @@
 import BdModel.Proofs.RetryClosure
 import BdModel.Proofs.Sched.Progress
+import BdModel.Proofs.Sched.ProgressFrom
+import BdModel.Proofs.Sched.BookFrom
+import BdModel.Proofs.Sched.LabelFrom
+import BdModel.Proofs.Sched.Termination
+import BdModel.Proofs.Sched.OutcomeFrom
 /-
   C10 — retry re-executes exactly the unfinished part of a recorded run.
   Property theorems only (helpers: Proofs/RetryBfs, RetryKeep, RetryClosure).
@@ -11,46 +16,52 @@ import BdModel.Proofs.Sched.Progress
 namespace BdModel.P10
 open BdModel.Retry BdModel.Sched BdModel.Cycle
 
-/-- **C10 (what is reset).** `setupRetry` resets a step iff the record shows it failed, canceled or
-    still running (killed process), or it lies downstream of such a step. The walk's fuel `n + 1`
+/-- a step the record does not show completed: failed, canceled, still running (killed process) or
+    never started -/
+def Unfinished (x : NStatus) : Prop := x = .error ∨ x = .cancel ∨ x = .running ∨ x = .none
+
+/-- **C10 (what is reset).** `setupRetry` resets a step iff the record shows it failed, canceled,
+    still running (killed process) or not started, or it lies downstream of such a step. The walk's fuel `n + 1`
     suffices (the frontier drains), so this is the result of the real unbounded loop. -/
 theorem C10_reset (n : Nat) (es : List (Nat × Nat)) (st : Nat → NStatus) (hg : GoodGraph n es) (v : Nat) (hv : v < n) :
     ((setupRetry n es st resetSet).1.cleared v = true ↔
-      ∃ u, u < n ∧ (st u = .error ∨ st u = .cancel ∨ st u = .running) ∧ Reaches es u v) ∧
+      ∃ u, u < n ∧ Unfinished (st u) ∧ Reaches es u v) ∧
     (setupRetry n es st resetSet).2 = [] := by
   refine ⟨?_, setupRetry_drained n es st resetSet hg⟩
   rw [cleared_iff_retry n es st resetSet hg v hv, retry_iff_closure n es st resetSet hg v hv]
   constructor
   · rintro ⟨u, hu, hr, hp⟩
     refine ⟨u, hu, ?_, hp⟩
-    cases h : st u <;> simp [resetSet, h] at hr ⊢
+    cases h : st u <;> simp [resetSet, Unfinished, h] at hr ⊢
   · rintro ⟨u, hu, hr, hp⟩
     refine ⟨u, hu, ?_, hp⟩
-    rcases hr with h | h | h <;> simp [resetSet, h]
+    rcases hr with h | h | h | h <;> simp [resetSet, h]
 
 /-- **C10 (what the retry run starts from).** Every step that is unfinished in the record (failed,
-    canceled, running, never started) or downstream of a failed / canceled / running one starts the
-    retry run as `not started` with fresh counters, i.e. it is (re-)executed under the ordinary
-    scheduling rules (C01, C02, C03 apply to it); every other step starts with its recorded state. -/
+    canceled, running, never started) or downstream of an unfinished one starts the retry run as
+    `not started` with FRESH counters (retry count and done count zero: its full retry budget — since
+    fix 58ed5db also for a step recorded `not started`, F45), i.e. it is (re-)executed under the
+    ordinary scheduling rules (C01, C02, C03 apply to it); every other step starts with its recorded
+    state. -/
 theorem C10_start (n : Nat) (es : List (Nat × Nat)) (st : Nat → NStatus) (rc dc : Nat → Nat)
     (hg : GoodGraph n es) (v : Nat) (hv : v < n) :
     let s0 := initRetry n es st rc dc resetSet
-    ((st v = .none ∨ ∃ u, u < n ∧ (st u = .error ∨ st u = .cancel ∨ st u = .running) ∧ Reaches es u v) →
-        (s0.nd v).status = .none ∧ (s0.nd v).pc = .idle ∧ (s0.nd v).execs = 0) ∧
-    ((¬ ∃ u, u < n ∧ (st u = .error ∨ st u = .cancel ∨ st u = .running) ∧ Reaches es u v) →
+    ((∃ u, u < n ∧ Unfinished (st u) ∧ Reaches es u v) → (s0.nd v) = {}) ∧
+    ((¬ ∃ u, u < n ∧ Unfinished (st u) ∧ Reaches es u v) →
+        (st v = .success ∨ st v = .skipped) ∧
         (s0.nd v).status = st v ∧ (s0.nd v).retry = rc v ∧ (s0.nd v).doneCnt = dc v) := by
   intro s0
   have hc := (C10_reset n es st hg v hv).1
   constructor
-  · rintro (h | h)
-    · by_cases hcl : (setupRetry n es st resetSet).1.cleared v = true
-      · simp [s0, initRetry, hcl]
-      · simp [s0, initRetry, hcl, h]
-    · have hcl := hc.2 h
-      simp [s0, initRetry, hcl]
+  · intro h
+    have hcl := hc.2 h
+    simp [s0, initRetry, hcl, hv]
   · intro h
     have hcl : ¬ (setupRetry n es st resetSet).1.cleared v = true := fun hx => h (hc.1 hx)
-    simp [s0, initRetry, hcl]
+    refine ⟨?_, by simp [s0, initRetry, hcl, hv]⟩
+    have : ¬ Unfinished (st v) := fun hu => h ⟨v, hv, hu, Relation.ReflTransGen.refl⟩
+    revert this
+    cases st v <;> simp [Unfinished]
 
 /-- **C10 (no orphan).** After `setupRetry` no step is left `running` without a worker — the state that
     made the pinned tree's retry spin for ever (finding F11, fixed by 5b4cd49). -/
@@ -58,22 +69,22 @@ theorem C10_no_orphan (n : Nat) (es : List (Nat × Nat)) (st : Nat → NStatus) 
     (hg : GoodGraph n es) (v : Nat) (hv : v < n) :
     ((initRetry n es st rc dc resetSet).nd v).status ≠ .running := by
   by_cases hcl : (setupRetry n es st resetSet).1.cleared v = true
-  · simp [initRetry, hcl]
+  · simp [initRetry, hcl, hv]
   · have hr : st v ≠ .running := by
       intro h
-      exact hcl ((C10_reset n es st hg v hv).1.2 ⟨v, hv, Or.inr (Or.inr h), Relation.ReflTransGen.refl⟩)
-    simp [initRetry, hcl, hr]
+      exact hcl ((C10_reset n es st hg v hv).1.2 ⟨v, hv, Or.inr (Or.inr (Or.inl h)), Relation.ReflTransGen.refl⟩)
+    simp [initRetry, hcl, hr, hv]
 
 /-- **C10 (kept steps are left alone).** In EVERY interleaving of the retry run, a step that is
     recorded finished or skipped and is not reset is never executed, has no worker, and keeps its
     recorded state. -/
 theorem C10_kept (c : Cfg) (n : Nat) (es : List (Nat × Nat)) (st : Nat → NStatus) (rc dc : Nat → Nat)
-    (i : Nat) (hk : st i = .success ∨ st i = .skipped)
+    (i : Nat) (hi : i < n) (hk : st i = .success ∨ st i = .skipped)
     (hnc : (setupRetry n es st resetSet).1.cleared i = false)
     (s : State) (h : ReachFrom c (initRetry n es st rc dc resetSet) s) :
     (s.nd i).execs = 0 ∧ (s.nd i).status = st i ∧ (s.nd i).pc = .idle := by
   have h0 : Kept st i (initRetry n es st rc dc resetSet) := by
-    refine ⟨?_, ?_, ?_, ?_⟩ <;> simp [initRetry, hnc]
+    refine ⟨?_, ?_, ?_, ?_⟩ <;> simp [initRetry, hnc, hi]
   have := keep_inv_gen c st i hk _ h0 s h
   exact ⟨this.1, this.2.1, this.2.2.1⟩
 
@@ -90,11 +101,244 @@ theorem C10_starts_moving (c : Cfg) (hw : WF c) (hrk : Ranked c) (es : List (Nat
       s' ≠ initRetry c.n es st rc dc resetSet :=
   scan_progress c hw hrk _ rfl rfl hnf (fun j hj => C10_no_orphan c.n es st rc dc hg j hj)
 
+
+/-! ### the retry RUN: the theorems of C01, C02, C03 and C15 hold for it
+
+The fine-system invariants behind C01/C02/C03/C15 are proved in `Proofs/Sched/*From.lean` for every
+state `Schedule` can be entered in (`Start`): steps that start from scratch next to steps kept with
+a finished / skipped record and arbitrary recorded counters. `C10_start_ok` shows that what
+`setupRetry` hands over is such a state, for every acyclic graph and EVERY recorded vector. -/
+
+/-- what `setupRetry` hands to the scheduler is a state `Schedule` can be entered in -/
+theorem C10_start_ok (n : Nat) (es : List (Nat × Nat)) (st : Nat → NStatus) (rc dc : Nat → Nat)
+    (hg : GoodGraph n es) : Start (initRetry n es st rc dc resetSet) := by
+  refine ⟨rfl, rfl, rfl, rfl, rfl, rfl, rfl, fun j => ?_⟩
+  by_cases hj : j < n
+  · have h := C10_start n es st rc dc hg j hj
+    by_cases hex : ∃ u, u < n ∧ Unfinished (st u) ∧ Reaches es u j
+    · exact Or.inl (h.1 hex)
+    · obtain ⟨hk, -⟩ := h.2 hex
+      have hcl : ¬ (setupRetry n es st resetSet).1.cleared j = true :=
+        fun hx => hex ((C10_reset n es st hg j hj).1.1 hx)
+      exact Or.inr ⟨st j, rc j, dc j, hk, by simp [initRetry, hj, hcl]⟩
+  · exact Or.inl (by simp [initRetry, hj])
+
+/-- **C10 (dependency order).** In every state of every interleaving of the retry run: whenever a
+    step has a worker that can still start its command or is running it, or the loop has decided to
+    launch it, every step named in its `depends` is licensed (finished, or failed / skipped with the
+    matching continueOn — kept steps by their record, reset steps by this run) and settled (no worker
+    of it can start a command any more). C01 for retry runs, from EVERY recorded vector. -/
+theorem C10_order (c : Cfg) (hn : NoRep c) (hf : c.tdFaults = false) (es : List (Nat × Nat))
+    (st : Nat → NStatus) (rc dc : Nat → Nat) (hg : GoodGraph c.n es)
+    (s : State) (h : ReachFrom c (initRetry c.n es st rc dc resetSet) s) (i : Nat)
+    (hp : (s.nd i).pc.active = true ∨ s.loop = .launching i) :
+    ∀ d ∈ (c.node i).deps, Licensed c s d ∧ Settled s d :=
+  deps_done_from c hn hf (C10_start_ok c.n es st rc dc hg) s h i hp
+
+/-- a dependency that is licensed and settled stays so for the rest of the retry run and is never
+    executed again -/
+theorem C10_order_stable (c : Cfg) (hn : NoRep c) (hf : c.tdFaults = false) (es : List (Nat × Nat))
+    (st : Nat → NStatus) (rc dc : Nat → Nat) (hg : GoodGraph c.n es)
+    (s s' : State) (h : ReachFrom c (initRetry c.n es st rc dc resetSet) s) (a : Act)
+    (hs : step c s a = some s') (d : Nat) (hd : Licensed c s d ∧ Settled s d) :
+    Licensed c s' d ∧ Settled s' d ∧ (s'.nd d).execs = (s.nd d).execs :=
+  done_stable_from c hn hf (C10_start_ok c.n es st rc dc hg) s s' h a hs d hd
+
+/-- **C10 (re-executed steps follow the ordinary rules).** In every state of an unstopped,
+    un-timed-out retry run a reset step carries a label consistent with its dependencies (C02) and the
+    attempt accounting of a fresh step (C03): finished ⇒ executed retry count + 1 times; failed ⇒ its
+    full budget `limit + 1` was used (or its set-up failed); canceled ⇒ never executed; and its retry
+    count never exceeds the limit. Nothing of the recorded run's counters survives in it (F45). -/
+theorem C10_reexecuted (c : Cfg) (hn : NoRep c) (hdry : c.dry = false) (hf : c.tdFaults = false)
+    (es : List (Nat × Nat)) (st : Nat → NStatus) (rc dc : Nat → Nat) (hg : GoodGraph c.n es)
+    (s : State) (h : ReachFrom c (initRetry c.n es st rc dc resetSet) s)
+    (hc : s.canceled = false) (ht : s.timedOut = false)
+    (i : Nat) (hi : i < c.n) (hres : ∃ u, u < c.n ∧ Unfinished (st u) ∧ Reaches es u i) :
+    (s.nd i).retry ≤ (c.node i).limit ∧
+    ((s.nd i).status = .success → (s.nd i).execs = (s.nd i).retry + 1) ∧
+    ((s.nd i).status = .error →
+        ((s.nd i).setupFailed = true ∧ (s.nd i).execs = (s.nd i).retry) ∨
+        ((s.nd i).execs = (c.node i).limit + 1 ∧ (s.nd i).retry = (c.node i).limit)) ∧
+    ((s.nd i).status = .cancel →
+        (s.nd i).execs = 0 ∧ ∃ d ∈ (c.node i).deps,
+          ((s.nd d).status = .error ∧ (c.node d).contFail = false) ∨ (s.nd d).status = .cancel) ∧
+    (((s.nd i).status = .success ∨ (s.nd i).status = .error ∨ (s.nd i).status = .running) →
+        ∀ d ∈ (c.node i).deps, Licensed c s d) := by
+  have h0 := C10_start_ok c.n es st rc dc hg
+  have hfresh : (initRetry c.n es st rc dc resetSet).nd i = {} := (C10_start c.n es st rc dc hg i hi).1 hres
+  have hF := final_counts_from c hn hdry hf h0 s h hc ht i hfresh
+  have hL := label_consistent_from c hn hf h0 s h hc ht i hfresh
+  exact ⟨retry_le_limit_from c s h i hfresh, hF.1, hF.2.1, hL.1, hL.2.2⟩
+
+/-- **C10 (the limit holds in the retry run).** C15 for retry runs. -/
+theorem C10_limit (c : Cfg) (hn : NoRep c) (es : List (Nat × Nat))
+    (st : Nat → NStatus) (rc dc : Nat → Nat) (hg : GoodGraph c.n es)
+    (s : State) (h : ReachFrom c (initRetry c.n es st rc dc resetSet) s) (hk : 0 < c.maxActive) :
+    executing c s ≤ c.maxActive :=
+  executing_le_from c hn (C10_start_ok c.n es st rc dc hg) s h hk
+
+/-- **C10 (the retry run is never stuck).** In every reachable unstopped, unfinished state at the
+    head of the loop a running step's worker has an enabled action, or one visit of the loop launches
+    or labels a step: deadlock freedom of the retry run from EVERY recorded vector (termination:
+    `C10_terminates`). -/
+theorem C10_never_blocks (c : Cfg) (hw : WF c) (hrk : Ranked c) (hn : NoRep c) (es : List (Nat × Nat))
+    (st : Nat → NStatus) (rc dc : Nat → Nat) (hg : GoodGraph c.n es)
+    (s : State) (h : ReachFrom c (initRetry c.n es st rc dc resetSet) s)
+    (hscan : s.loop = .scanning) (hnc : s.canceled = false) (hnf : isFinished c s = false) :
+    (∃ j, j < c.n ∧ (s.nd j).status = .running ∧ ∃ a s', step c s a = some s' ∧
+        (a = .setupDone j true ∨ a = .check j ∨ a = .execStart j ∨ a = .execEnd j true ∨ a = .postWrite j ∨
+         a = .retryWake j ∨ a = .tail j)) ∨
+    (∃ i s', step c s (.visitDecide i) = some s' ∧ s' ≠ s) :=
+  never_blocks_from c hw hrk hn (C10_start_ok c.n es st rc dc hg) s h hscan hnc hnf
+
+/-- **C10 (nothing is left unfinished).** When an unstopped retry run has left its loop every step
+    is in a final state: no step `not started`, none `running`. -/
+theorem C10_all_final (c : Cfg) (hn : NoRep c) (es : List (Nat × Nat))
+    (st : Nat → NStatus) (rc dc : Nat → Nat) (hg : GoodGraph c.n es)
+    (s : State) (h : ReachFrom c (initRetry c.n es st rc dc resetSet) s)
+    (hc : s.canceled = false) (hl : LoopDone s) (i : Nat) (hi : i < c.n) : Terminal (s.nd i).status :=
+  final_terminal_from c hn (C10_start_ok c.n es st rc dc hg) s h hc hl i hi
+
+/-- **C10 (the retry always terminates).** For every acyclic graph and EVERY recorded vector, in every
+    state of every interleaving of the retry run: every transition strictly decreases the
+    natural-number `measure`, leaves the state unchanged (a loop visit with nothing to do, a repeated
+    stop) or is a signal delivery (never increases it); while `Schedule` has not returned a decreasing
+    transition is enabled; hence at most `measure` productive transitions happen, after which
+    `Schedule` has returned. (Environment assumption of the model: a running command ends.) -/
+theorem C10_terminates (c : Cfg) (hw : WF c) (hrk : Ranked c) (hn : NoRep c) (es : List (Nat × Nat))
+    (st : Nat → NStatus) (rc dc : Nat → Nat) (hg : GoodGraph c.n es)
+    (s : State) (h : ReachFrom c (initRetry c.n es st rc dc resetSet) s) :
+    (∀ a s', step c s a = some s' →
+        measure c s' < measure c s ∨ s' = s ∨
+          ((∃ i sig ovr, a = .signalNode i sig ovr) ∧ measure c s' ≤ measure c s)) ∧
+    (s.loop ≠ .returned → ∃ a s', step c s a = some s' ∧ measure c s' < measure c s) ∧
+    (∀ as, descents c s as ≤ measure c s) ∧
+    (∃ as s', runActs c s as = some s' ∧ s'.loop = .returned ∧ as.length ≤ measure c s) := by
+  have h0 := C10_start_ok c.n es st rc dc hg
+  exact ⟨fun a s' hs => step_measure c hn h0 s h a s' hs,
+         fun hnr => productive_enabled c hw hrk hn h0 s h hnr,
+         fun as => descents_le c hn h0 as s h,
+         can_return c hw hrk hn h0 _ s h rfl⟩
+
+/-- non-vacuity: chain 0 → 1 → 2 recorded finished / failed / not started; the retry run launches
+    step 1 (its dependency is a kept step), and after it finished, step 2 -/
+def demoR : Cfg := { n := 3, node := fun i => { deps := if i = 0 then [] else [i - 1] } }
+def demoSt : Nat → NStatus := fun i => if i = 0 then .success else if i = 1 then .error else .none
+example : ((runActs demoR (initRetry 3 [(0, 1), (1, 2)] demoSt (fun _ => 2) (fun _ => 3) resetSet)
+    [.visitDecide 0, .visitDecide 1, .visitLaunch 1 true, .setupDone 1 true, .check 1, .execStart 1,
+     .execEnd 1 true, .tail 1, .visitDecide 2]).map
+      fun s => ((s.nd 0).execs, (s.nd 1).execs, (s.nd 1).retry, (s.nd 1).status, s.loop)) =
+    some (0, 1, 0, .success, .launching 2) := by decide
+
+/-! ### the retry RUN: outcome, handlers and stop (C04, C05)
+
+The invariants behind C04 / C05 are proved in `Proofs/Sched/OutcomeFrom.lean` for every `Start` state
+that has nothing outside the graph; `initRetry` is one (`C10_start_ok`, `C10_outside`). -/
+
+/-- `setupRetry` hands over nothing outside the graph -/
+theorem C10_outside (n : Nat) (es : List (Nat × Nat)) (st : Nat → NStatus) (rc dc : Nat → Nat)
+    (i : Nat) (hi : n ≤ i) : (initRetry n es st rc dc resetSet).nd i = {} := by
+  simp [initRetry, Nat.not_lt.mpr hi]
+
+/-- **C10 (outcome of the retry run).** For every acyclic graph, EVERY recorded vector and every
+    interleaving of the retry run that was not stopped and did not time out: the status `o` read after
+    all steps have finished (`atWait = some o`) is succeeded or failed; it is succeeded iff EVERY step
+    of the graph — kept with its record or re-executed by this run — is finished or skipped, and
+    failed iff SOME step is failed (necessarily a re-executed one: a kept step is finished or
+    skipped, `C10_kept`). C04 (outcome) for retry runs. -/
+theorem C10_outcome (c : Cfg) (hw : WF c) (hn : NoRep c) (hrk : Ranked c) (es : List (Nat × Nat))
+    (st : Nat → NStatus) (rc dc : Nat → Nat) (hg : GoodGraph c.n es)
+    (s : State) (h : ReachFrom c (initRetry c.n es st rc dc resetSet) s)
+    (hc : s.canceled = false) (ht : s.timedOut = false) (o : SStatus) (ho : s.atWait = some o) :
+    (o = .success ∨ o = .error) ∧
+    (o = .success ↔ ∀ i, i < c.n → (s.nd i).status = .success ∨ (s.nd i).status = .skipped) ∧
+    (o = .error ↔ ∃ i, i < c.n ∧ (s.nd i).status = .error) :=
+  outcome_unstopped_from c hw hn hrk (C10_start_ok c.n es st rc dc hg) (C10_outside c.n es st rc dc)
+    s h hc ht o ho
+
+/-- **C10 (handlers of the retry run).** In every state of every interleaving of the retry run
+    (stopped or not): (1) before the plan is computed no handler has run, no outcome has been read and
+    the loop is neither in its handler phase nor returned; (2) once a plan `p` exists it is
+    `handlerPlan c o` for the outcome `o` read after all steps finished — [handler of `o`] ++ [onExit]
+    restricted to the configured ones (shape: `C04_plan_shape`) — the handlers run so far are a prefix
+    of `p` in plan order, and when `Schedule` has returned exactly `p` has run (each handler once,
+    onExit last); (3) once the handlers have begun no step command starts any more (the number of
+    command starts equals the number at that moment) and no step of the graph has a worker that could
+    start one. C04 (handlers, handlers after steps) for retry runs. -/
+theorem C10_handlers (c : Cfg) (es : List (Nat × Nat)) (st : Nat → NStatus) (rc dc : Nat → Nat)
+    (hg : GoodGraph c.n es) (s : State) (h : ReachFrom c (initRetry c.n es st rc dc resetSet) s) :
+    (s.hplan = none → s.hlog = [] ∧ s.atWait = none ∧ ¬ (∃ l, s.loop = .handlers l) ∧ s.loop ≠ .returned) ∧
+    (∀ p, s.hplan = some p →
+        (∃ o, s.atWait = some o ∧ p = handlerPlan c o) ∧
+        ((∃ rest, s.loop = .handlers rest ∧ s.hlog ++ rest = p) ∨ (s.loop = .returned ∧ s.hlog = p))) ∧
+    (((∃ l, s.loop = .handlers l) ∨ s.loop = .returned) →
+        totalExecs c s = s.execsAtWait ∧ ∀ i, i < c.n → (s.nd i).pc.active = false) := by
+  have h0 := C10_start_ok c.n es st rc dc hg
+  have hp := hlog_plan_from c h0 s h
+  exact ⟨hp.1, hp.2, no_exec_after_wait_from c h0 s h⟩
+
+/-- **C10 (stopping the retry run).** For every state `s` of every interleaving of the retry run:
+    (a) if the stop has been accepted in `s`, then in every later state `s'` every step `i` (kept or
+    reset) has started its command at most once more than in `s`, and only if its worker had already
+    passed its cancel test in `s` (`pc = starting`); (b) no step, kept or reset, whose worker is gone
+    (or has only its deferred part / teardown left, or was never launched) is reported `running`;
+    (c) a RESET step (unfinished in the record or downstream of an unfinished step) that is reported
+    finished has executed its command in this run — also when the stop landed between the loop's
+    launch decision and the worker's cancel test. Kept-step exception to (c): a step kept with the
+    record `finished` is reported finished with NO execution in this run (`C10_kept`: `execs = 0`);
+    its command ran in the recorded run. C05 (a), nothing-left-running and no-phantom-success for
+    retry runs. -/
+theorem C10_stop (c : Cfg) (hn : NoRep c) (hd : c.dry = false) (es : List (Nat × Nat))
+    (st : Nat → NStatus) (rc dc : Nat → Nat) (hg : GoodGraph c.n es)
+    (s : State) (h : ReachFrom c (initRetry c.n es st rc dc resetSet) s) (i : Nat) :
+    (s.canceled = true → ∀ s', ReachFrom c s s' →
+        (s'.nd i).execs ≤ (s.nd i).execs + (if (s.nd i).pc = .starting then 1 else 0)) ∧
+    (((s.nd i).pc = .idle ∨ (s.nd i).pc = .gone ∨ (s.nd i).pc = .deferred ∨ (s.nd i).pc = .td) →
+        (s.nd i).status ≠ .running) ∧
+    (i < c.n → (∃ u, u < c.n ∧ Unfinished (st u) ∧ Reaches es u i) →
+        (s.nd i).status = .success → (s.nd i).execs ≥ 1) := by
+  have h0 := C10_start_ok c.n es st rc dc hg
+  refine ⟨fun hc s' hs' => no_new_start_after_cancel c s s' hc hs' i,
+          no_running_when_gone_from c hn h0 s h i, fun hi hres => ?_⟩
+  exact success_executed_from c hd s h i ((C10_start c.n es st rc dc hg i hi).1 hres)
+
+/-- **C10 (escalation in the retry run).** In every state of the retry run in which the stop has been
+    accepted the final SIGKILL is enabled for every step and reaches every command that is still
+    running (a worker executing a command has an executor: `exec_has_cmd_from`). C05 (c) for retry
+    runs. -/
+theorem C10_stop_kill (c : Cfg) (hd : c.dry = false) (es : List (Nat × Nat))
+    (st : Nat → NStatus) (rc dc : Nat → Nat) (hg : GoodGraph c.n es)
+    (s : State) (h : ReachFrom c (initRetry c.n es st rc dc resetSet) s) (hc : s.canceled = true) (i : Nat) :
+    ∃ s', step c s (.signalNode i 9 false) = some s' ∧
+      ((s.nd i).pc = .exec → (9 : Nat) ∈ (s'.nd i).sigs) := by
+  have hcmd := exec_has_cmd_from c hd (C10_start_ok c.n es st rc dc hg) s h i
+  cases hs : step c s (.signalNode i 9 false) with
+  | none =>
+    exfalso
+    simp only [step, hc, true_and, or_true, if_true] at hs
+    grind
+  | some s' =>
+    refine ⟨s', rfl, fun hp => ?_⟩
+    simp only [step] at hs
+    split at hs
+    · simp only [hcmd hp, hp, and_self, if_true] at hs
+      split at hs <;> (injection hs with hs; subst hs; simp [State.setNode, updN])
+    · cases hs
+
 /-- on the pinned tree (reset set without `running`) the chain finished → running → not started keeps
     its orphan `running` step: `isFinished` can never become true without a stop (F11 witness) -/
 theorem C10_pinned_orphan :
     ((initRetry 3 [(0, 1), (1, 2)] (fun i => if i = 0 then .success else if i = 1 then .running else .none)
         (fun _ => 0) (fun _ => 0) resetSetPinned).nd 1).status = .running := by decide
+
+/-- before fix 58ed5db (reset set without `not started`) a step recorded `not started` with retry
+    count 1 — the record of a run interrupted between a failed attempt's hand-back and its relaunch —
+    starts the retry run with that count: part of its budget is spent before its first attempt (F45
+    witness); with the fixed reset set it starts from scratch -/
+theorem C10_F45_witness :
+    ((initRetry 2 [] (fun i => if i = 0 then .none else .success) (fun _ => 1) (fun _ => 1) resetSetF45).nd 0).retry = 1 ∧
+    ((initRetry 2 [] (fun i => if i = 0 then .none else .success) (fun _ => 1) (fun _ => 1) resetSet).nd 0).retry = 0 := by
+  decide
 
 /-! non-vacuity: diamond 0 → {1,2} → 3 with 1 recorded failed: exactly 1 and 3 are reset, 0 and 2 kept -/
 example : (List.range 4).map (fun v => (setupRetry 4 [(0, 1), (0, 2), (1, 3), (2, 3)]
@@ -108,4 +352,18 @@ end BdModel.P10
 #print axioms BdModel.P10.C10_no_orphan
 #print axioms BdModel.P10.C10_kept
 #print axioms BdModel.P10.C10_starts_moving
+#print axioms BdModel.P10.C10_start_ok
+#print axioms BdModel.P10.C10_order
+#print axioms BdModel.P10.C10_order_stable
+#print axioms BdModel.P10.C10_reexecuted
+#print axioms BdModel.P10.C10_limit
+#print axioms BdModel.P10.C10_never_blocks
+#print axioms BdModel.P10.C10_all_final
+#print axioms BdModel.P10.C10_terminates
+#print axioms BdModel.P10.C10_outside
+#print axioms BdModel.P10.C10_outcome
+#print axioms BdModel.P10.C10_handlers
+#print axioms BdModel.P10.C10_stop
+#print axioms BdModel.P10.C10_stop_kill
 #print axioms BdModel.P10.C10_pinned_orphan
+#print axioms BdModel.P10.C10_F45_witness
